@@ -71,6 +71,7 @@ struct World {
     rx: Vec<Option<mpsc::Receiver<Item>>>,
     c: Concrete,
     seq: u16,
+    full: Vec<bool>, // listeners whose channel the scenario filled up (their receiver "is not reading")
     _sock: watch::Sender<Option<IceSocketWrapper>>,
 }
 
@@ -92,7 +93,7 @@ fn fresh(cfg: &Value, rng: &mut Rng) -> World {
         tx.push(a);
         rx.push(Some(b));
     }
-    World { t, tx, rx, c, seq: rng.next() as u16, _sock: sock_tx }
+    World { t, tx, rx, c, seq: rng.next() as u16, full: vec![false; NL], _sock: sock_tx }
 }
 
 fn fnv64(b: &[u8]) -> u64 {
@@ -146,10 +147,21 @@ async fn apply(w: &mut World, act: &Value, rng: &mut Rng) -> Option<(u32, u16)> 
             let l = li(&act["l"]);
             let filler = RtpPacket::new(RtpHeader::new(0, 0, 0, 0xF111_F111), vec![]);
             while w.tx[l].try_send((filler.clone(), "127.0.0.1:9".parse().unwrap())).is_ok() {}
+            w.full[l] = true;
         }
         "drain" => {
-            if let Some(r) = w.rx[li(&act["l"])].as_mut() {
+            let l = li(&act["l"]);
+            if let Some(r) = w.rx[l].as_mut() {
                 while r.try_recv().is_ok() {}
+            }
+            w.full[l] = false;
+        }
+        "ext" => {
+            let on = act["on"].as_bool().unwrap();
+            if act["k"] == "rid" {
+                w.t.set_rid_extension_id(if on { Some(w.c.rid_id) } else { None });
+            } else {
+                w.t.set_sdes_mid_extension_id(if on { Some(w.c.mid_id) } else { None });
             }
         }
         "clear" => {
@@ -188,6 +200,9 @@ fn poll(w: &mut World, sent: Option<(u32, u16)>) -> (Vec<u64>, bool) {
     let mut got = Vec::new();
     let mut intact = true;
     for (i, r) in w.rx.iter_mut().enumerate() {
+        if w.full[i] {
+            continue; // its receiver is not reading: the queue stays at capacity
+        }
         if let Some(r) = r {
             while let Ok((p, _)) = r.try_recv() {
                 if p.header.ssrc == 0xF111_F111 {
@@ -204,7 +219,7 @@ fn poll(w: &mut World, sent: Option<(u32, u16)>) -> (Vec<u64>, bool) {
 }
 
 /// A probe line `{cfg, pre, after, probes:[<<s,pt,rid,mid,allowed,rule,delivered,bound,by,closedHit,holders,provs,
-/// identified,unreg>>..]}` stands for one ordinary edge per probe packet, all with the same history.
+/// identified,unreg,fullHit>>..]}` stands for one ordinary edge per probe packet, all with the same history.
 fn expand(line: &Value) -> Vec<Value> {
     let Some(probes) = line["probes"].as_array() else {
         return vec![line.clone()];
@@ -215,7 +230,7 @@ fn expand(line: &Value) -> Vec<Value> {
         "exp": {"delivered": {"allowed": p[4], "rule": p[5]}},
         "ext": {"delivered": p[6], "bound": p[7]},
         "cls": {"by": p[8], "closedHit": p[9], "holders": p[10], "provs": p[11], "identified": p[12], "unreg": p[13],
-                "after": line["after"]},
+                "fullHit": p[14], "after": line["after"]},
     })).collect()
 }
 
@@ -242,9 +257,7 @@ fn run_demux(lines: &[Value], out: &mut NdjsonOut, shard: (usize, usize), hash_p
                 let mut w = fresh(&e["cfg"], &mut rng);
                 for a in pre {
                     apply(&mut w, a, &mut rng).await;
-                    if a["op"] != "fill" {
-                        poll(&mut w, None);
-                    }
+                    poll(&mut w, None);
                 }
                 let sent = apply(&mut w, &e["act"], &mut rng).await;
                 let (got, intact) = poll(&mut w, sent);
